@@ -60,8 +60,19 @@ Definition upd (fs : hostfs) (p : path) (c : list byte) : hostfs :=
    escapes (the CLIs print it).  A buffer shorter than 161,280 bytes makes DiskFile.list_files raise;
    one LONGER than that is outside MDisk.list_files' domain (Unmodelled) — known finding
    tape_sniffed_as_disk lives there. *)
+(* DiskFile.validate_allocation_table (repair F48): the entry of every granule is free ($FF), a last-granule
+   marker ($C0-$C9) or the number of another granule that is itself in use; content without such a table
+   is not a disk image.  The table is buf[78592:78660] = the first 68 bytes of the FAT sector of slice buf. *)
+Definition fat_entry_ok (ft : list byte) (g : nat) (e : byte) : bool :=
+  if e <? 68 then negb (e =? N.of_nat g) && negb (nth (N.to_nat e) ft 0 =? 255)
+  else ((192 <=? e) && (e <=? 201)) || (e =? 255).
+
+Definition fat_plausible (buf : list byte) : bool :=
+  let ft := firstn 68 (fat (slice buf)) in
+  Nat.eqb (length ft) 68 && forallb (fun ge => fat_entry_ok ft (fst ge) (snd ge)) (combine (seq 0 68) ft).
+
 Definition sniff (buf : list byte) : res (list cocofile * vkind) :=
-  match MDisk.list_files buf with
+  match (if fat_plausible buf then MDisk.list_files buf else Diag 4) with
   | Ok ds => Ok (map of_dfile ds, KDsk)
   | Diag _ =>
       match MCassette.list_files buf with
